@@ -547,6 +547,12 @@ def run(F, chk):
               "serialised reference that an enumerator leaves out keeps the source model's number in the clone")
     chk.floor("R14.7", 600)
 
+    # ---------------------------------------------------------------- R14.10
+    chk.share(F, "c06", ["R6.10"], "R14.10",
+              "the clone functions re-parent and detach nodes through the reference arrays: a block number handed to a positional "
+              "array operation detaches an unrelated child of the destination and leaves the intended reference in place")
+    chk.floor("R14.10", 6)
+
     chk.assumptions += ["taint is tracked through locals, range-for variables and lambda captures; distinct objects are assumed not to "
                         "alias (Appendix A); a same-model clone (srcNif == this) necessarily adds blocks to that model",
                         "bone-list content and equality of cloned block content (= C11 clone wiring) are not decided here"]
